@@ -68,8 +68,10 @@ pub struct Case {
     specs: Vec<AcctSpec>,
     world: Option<World>,
     funder: Option<(usize, FunderObj)>,
-    cache_funder: bool,
-    cache_recipient: bool,
+    /// every `cache funder` line = one `ctx.set_funder` call (replayed in order on each op's context)
+    funder_sets: Vec<(usize, FunderObj)>,
+    /// every `cache recipient` line = one `ctx.set_recipient` call
+    recipient_sets: Vec<usize>,
     pending: Option<Pending>,
 }
 
@@ -138,7 +140,7 @@ pub fn disc_of(ty: &str) -> [u8; 8] {
 
 impl Case {
     pub fn new() -> Self {
-        Case { rent: (3480, 2), specs: vec![], world: None, funder: None, cache_funder: false, cache_recipient: false, pending: None }
+        Case { rent: (3480, 2), specs: vec![], world: None, funder: None, funder_sets: vec![], recipient_sets: vec![], pending: None }
     }
     fn idx(&self, k: &Pubkey) -> Option<usize> {
         self.specs.iter().position(|s| s.key == *k)
@@ -151,14 +153,12 @@ impl Case {
     }
     fn ctx(&self) -> Context {
         let mut ctx = Context::new(&PROGRAM_ID_STATIC);
-        if let Some((i, f)) = &self.funder {
-            if self.cache_funder {
-                ctx.set_funder(f.boxed());
-            }
-            if self.cache_recipient {
-                let info = *self.world.as_ref().unwrap().info(*i);
-                ctx.set_recipient(Box::new(decode1::<Mut<AccountInfo>>(&info)));
-            }
+        for (_, f) in &self.funder_sets {
+            ctx.set_funder(f.boxed());
+        }
+        for i in &self.recipient_sets {
+            let info = *self.world.as_ref().unwrap().info(*i);
+            ctx.set_recipient(Box::new(decode1::<Mut<AccountInfo>>(&info)));
         }
         ctx
     }
@@ -485,9 +485,10 @@ pub fn exec_line(case: &mut Case, l: &str) -> String {
             if case.funder.is_none() {
                 return bad();
             }
+            let (i, f) = case.funder.clone().unwrap();
             match *which {
-                "funder" => case.cache_funder = true,
-                "recipient" => case.cache_recipient = true,
+                "funder" => case.funder_sets.push((i, f)),
+                "recipient" => case.recipient_sets.push(i),
                 _ => return bad(),
             }
             "ok".into()
@@ -821,19 +822,23 @@ pub fn run_case(rec: &mut Recorder, header: &str, lines: &[String]) {
         if let Some(before) = before {
             if ans != "bad-op" {
                 let after = case.snapshot();
-                let other = case.funder.as_ref().map(|(i, _)| before[*i].key);
+                // the counterpart: the explicit argument, or for the cached forms the account that was
+                // set LAST into the respective cache slot
+                let cached = l.contains(" cached ");
+                let funder_slot = is_init || l.contains(" normalize ") || l.contains(" receive ");
+                let last_set = if funder_slot { case.funder_sets.last().map(|(i, _)| *i) } else { case.recipient_sets.last().copied() };
+                let other = if cached { last_set.map(|i| before[i].key) } else { case.funder.as_ref().map(|(i, _)| before[*i].key) };
                 let head = ans.split(" cpis=").next().unwrap_or("").to_string();
                 rec.bump(&format!("{}:{}", if is_init { "init" } else if is_set { "set" } else { "clean" }, head));
                 if is_set {
                     oracle_set(rec, case.rent, l, &ans, &before, &after);
                 } else if is_init {
                     // cached funder: the payer is the cached one (same declared account)
-                    let no_funder = l.contains(" cached ") && !case.cache_funder;
-                    let funder_seeded = matches!(case.funder, Some((_, FunderObj::Seeded(_))));
+                    let no_funder = cached && case.funder_sets.is_empty();
+                    let funder_seeded = if cached { matches!(case.funder_sets.last(), Some((_, FunderObj::Seeded(_)))) } else { matches!(case.funder, Some((_, FunderObj::Seeded(_)))) };
                     oracle_init(rec, case.rent, other, funder_seeded, no_funder, l, &ans, &before, &after);
                 } else {
-                    let funder_op = l.contains(" normalize ") || l.contains(" receive ");
-                    let cache_hit = !l.contains(" cached ") || (if funder_op { case.cache_funder } else { case.cache_recipient });
+                    let cache_hit = !cached || last_set.is_some();
                     oracle_clean(rec, case.rent, other, cache_hit, l, &ans, &before, &after);
                 }
                 if ans.contains("cpis=") && !ans.ends_with("cpis=-") || ans.starts_with("err") || ans.starts_with("panic") || before != after {
@@ -970,6 +975,14 @@ fn c12_case(id: usize, rng: &mut Rng, rent: (u64, u64), ty: &str, if_needed: boo
     } else {
         lines.push(format!("funder {} {}", khex(&fkey), fseed_str));
     }
+    if cached && twist == 11 {
+        // the funder cache was first set to a decoy, then to the real funder (the last one counts)
+        let decoy = key(id as u64 * 4 + 3);
+        let at = lines.iter().position(|l| l.starts_with("funder ")).unwrap();
+        lines.insert(at, acct_line(&decoy, 4242, &SYS, &[], true, true));
+        lines.insert(at + 1, format!("funder {} none", khex(&decoy)));
+        lines.insert(at + 2, "cache funder".into());
+    }
     if cached && twist != 7 {
         lines.push("cache funder".into());
     }
@@ -987,7 +1000,7 @@ fn c12_case(id: usize, rng: &mut Rng, rent: (u64, u64), ty: &str, if_needed: boo
     (header, lines)
 }
 
-const C12_RULE: &str = "grid: target state (0 lamports; pre-funded below/at/above rent; owned by the program with zero / set / wrong discriminant; owned by a third program with data shorter / longer than the discriminant, zero or non-zero; System-owned with data; program-owned with 0 lamports) x funder (plain signer, seeded signer; argument or context cache) x account type (zero-copy pod, zero-copy list, borsh) x Create / CreateIfNeeded x initial values (default + random) x 3 rent parameter sets x seeded / keypair target, each followed by cleanup and a second Create and CreateIfNeeded on the result; plus twists (read-only target, unsigned target, poor funder, unsigned funder, seeds without the bump slot, seeds of another address, missing funder cache, funder owned by a third program, funder with data, target funding itself) and PRNG-drawn mixes. A case is non-trivial when an init op issued a CPI, returned an error / panicked, or changed the world; distinct by case text hash.";
+const C12_RULE: &str = "grid: target state (0 lamports; pre-funded below/at/above rent; owned by the program with zero / set / wrong discriminant; owned by a third program with data shorter / longer than the discriminant, zero or non-zero; System-owned with data; program-owned with 0 lamports) x funder (plain signer, seeded signer; argument or context cache) x account type (zero-copy pod, zero-copy list, borsh) x Create / CreateIfNeeded x initial values (default + random) x 3 rent parameter sets x seeded / keypair target, each followed by cleanup and a second Create and CreateIfNeeded on the result; plus twists (read-only target, unsigned target, poor funder, unsigned funder, seeds without the bump slot, seeds of another address, missing funder cache, funder owned by a third program, funder with data, target funding itself, funder cache set twice) and PRNG-drawn mixes. A case is non-trivial when an init op issued a CPI, returned an error / panicked, or changed the world; distinct by case text hash.";
 
 pub fn run_c12(args: &Args) {
     let mut rec = Recorder::new(C12_RULE);
@@ -1027,7 +1040,7 @@ pub fn run_c12(args: &Args) {
         let ty = *rng.pick(&["zc16", "zclist", "borsh"]);
         let vals = values(ty, &mut rng.fork(), 4);
         let val = rng.pick(&vals).clone();
-        let twist = if i % 3 == 0 { 0 } else { 1 + (rng.below(10) as usize) };
+        let twist = if i % 3 == 0 { 0 } else { 1 + (rng.below(11) as usize) };
         let (h, l) = c12_case(id, &mut rng.fork(), rent, ty, rng.chance(1, 2), rng.below(14) as usize, rng.chance(1, 2), rng.chance(1, 2), rng.chance(1, 2), &val, twist);
         run_case(&mut rec, &h, &l);
         rec.sample_current(5);
@@ -1100,7 +1113,15 @@ fn c13_case(id: usize, rng: &mut Rng, rent: (u64, u64), ty: &str, op: &str, bal:
     lines.push(acct_line(&tkey, tlam, &PROGRAM_ID, &tdata, false, true));
     lines.push(acct_line(&key(id as u64 * 4 + 2), by_lam, &THIRD_ID, &[7, 7, 7], false, true));
     let funder_op = op == "normalize" || op == "receive";
-    if how != 2 {
+    if how == 4 {
+        // the cache slot is set twice: first a decoy, then the real counterpart (the last one counts)
+        let decoy = key(id as u64 * 4 + 3);
+        lines.push(acct_line(&decoy, 4242, &SYS, &[], true, true));
+        lines.push(format!("funder {} none", khex(&decoy)));
+        lines.push(format!("cache {}", if funder_op { "funder" } else { "recipient" }));
+        lines.push(format!("funder {} {}", khex(&okey), oseed_str));
+        lines.push(format!("cache {}", if funder_op { "funder" } else { "recipient" }));
+    } else if how != 2 {
         lines.push(format!("funder {} {}", khex(&okey), oseed_str));
     }
     if how == 1 {
@@ -1152,7 +1173,7 @@ fn c13_set_case(id: usize, rng: &mut Rng, rent: (u64, u64), op: &str, order: &st
     (format!("case {id} c13 set {order} {op} bal={bal} size={size} twist={twist} rent={}x{}", rent.0, rent.1), lines)
 }
 
-const C13_RULE: &str = "grid: balance (0, 1, min-1, min, min+1, 2*min+3, 2^64-1-others) x data size (W, W+1, 100, 10000; borsh: W+12.. ) x 3 rent parameter sets x funder/recipient (explicit argument, context cache, missing cache, wrong cache filled) x plain / seeded funder x cleanup argument (Normalize, Refund, Receive, Close) x Account / BorshAccount (with and without a changed value), each followed by the same cleanup again; derived account sets that cache BOTH a funder and a distinct recipient through the derive-generated validation, in both declaration orders (funder first / recipient first), x the four cached cleanup arguments x balances x sizes (plus funder == recipient, unsigned funder, read-only recipient, wrong discriminant); plus PRNG-drawn mixes with poor / unsigned funders. A case is non-trivial when a clean op issued a CPI, returned an error / panicked, or changed the world; distinct by case text hash.";
+const C13_RULE: &str = "grid: balance (0, 1, min-1, min, min+1, 2*min+3, 2^64-1-others) x data size (0 = lamport-only account, W, W+1, 100, 10000; borsh: 0, W, W+12.. ) x 3 rent parameter sets x funder/recipient (explicit argument, context cache set once, set twice with different accounts, missing cache, wrong cache filled) x plain / seeded funder x cleanup argument (Normalize, Refund, Receive, Close) x Account / BorshAccount (with and without a changed value), each followed by the same cleanup again; derived account sets that cache BOTH a funder and a distinct recipient through the derive-generated validation, in both declaration orders (funder first / recipient first), x the four cached cleanup arguments x balances x sizes (plus funder == recipient, unsigned funder, read-only recipient, wrong discriminant); plus PRNG-drawn mixes with poor / unsigned funders. A case is non-trivial when a clean op issued a CPI, returned an error / panicked, or changed the world; distinct by case text hash.";
 
 pub fn run_c13(args: &Args) {
     let mut rec = Recorder::new(C13_RULE);
@@ -1171,10 +1192,10 @@ pub fn run_c13(args: &Args) {
         for ty in ["zc16", "borsh"] {
             for op in ["normalize", "refund", "receive", "close"] {
                 for bal in 0..=6 {
-                    for size in [W, W + 1, 100, 10_000] {
-                        for (how, seeded_other) in [(0, false), (1, false), (2, false), (0, true), (1, true)] {
+                    for size in [0, W, W + 1, 100, 10_000] {
+                        for (how, seeded_other) in [(0, false), (1, false), (2, false), (0, true), (1, true), (4, false), (4, true)] {
                             id += 1;
-                            let size = if ty == "borsh" && size < W + 12 { if size == W { W } else { W + 12 } } else if ty == "borsh" && size == 10_000 { 900 } else { size };
+                            let size = if ty == "borsh" && size < W + 12 { if size == W || size == 0 { size } else { W + 12 } } else if ty == "borsh" && size == 10_000 { 900 } else { size };
                             let (h, l) = c13_case(id, &mut rng, rent, ty, op, bal, size, how, seeded_other, 0);
                             run_case(&mut rec, &h, &l);
                             rec.sample_current(3);
@@ -1209,7 +1230,7 @@ pub fn run_c13(args: &Args) {
         let rent = *rng.pick(&RENTS);
         let ty = *rng.pick(&["zc16", "borsh"]);
         let op = *rng.pick(&["normalize", "refund", "receive", "close"]);
-        let size = if ty == "borsh" { W + 12 + rng.below(200) as usize } else { rng.below(300) as usize };
+        let size = if ty == "borsh" { W + 12 + rng.below(200) as usize } else if rng.chance(1, 8) { 0 } else { rng.below(300) as usize };
         let (h, l) = if rng.chance(1, 5) {
             c13_set_case(id, &mut rng.fork(), rent, op, if rng.chance(1, 2) { "fr" } else { "rf" }, rng.below(7) as usize, W + rng.below(120) as usize, rng.below(5) as usize)
         } else {
